@@ -261,6 +261,8 @@ def run_shard(agg, exe, variant, shard, nshards, tier, seed, extra, scratch, env
                 except Exception:
                     continue
                 t = e.get('t')
+                if t == 'viol' and ('key' not in e or 'case' not in e):
+                    continue        # a record cut short by a watchdog signal
                 if t == 'viol':
                     agg.add_viol(e['key'], {'monitor': os.path.basename(exe), 'variant': variant, 'case': e['case'], 'desc': e.get('desc', ''),
                                             'witness': e.get('w', ''), 'tier': tier, 'seed': seed, 'extra': extra})
